@@ -26,7 +26,9 @@ var floatBounds = []float64{0, math.Copysign(0, -1), 1, -1, 0.5, 0.1, 3.14, -2.5
 
 // StringBounds are the boundary strings.
 var StringBounds = []string{"", "a", "0", "\"", "é", "中", "😀", "ab", "中文", "a😀b", "😀😀", "s2\"ab\"", "12345", "-7", "3.5", "true", "\x00", "a\x00b",
-	"\xff", "a\xc0", "\xed\xa0\x80", "\xe4\xb8", "\xf0\x9f\x98", "héllo wörld", strings.Repeat("x", 255), strings.Repeat("中", 86), strings.Repeat("😀", 70), "r0;", "n", "e", "u", "\n\t\r",
+	"\xff", "a\xc0", "\xed\xa0\x80", "\xe4\xb8", "\xf0\x9f\x98",
+	// a continuation byte where a character should start, 5- and 6-byte lead bytes, overlong forms
+	"\x80", "\xbf", "na\xa0me", "\xa9 2021", "ok\x80", "\xf8\x88\x80\x80\x80", "\xfc\x84\x80\x80\x80\x80", "\xc0\xaf", "\xe0\x80\xaf", "\xf4\x90\x80\x80", "héllo wörld", strings.Repeat("x", 255), strings.Repeat("中", 86), strings.Repeat("😀", 70), "r0;", "n", "e", "u", "\n\t\r",
 	"2006-01-02", "1e400", "NaN", "0x10", " 1", "1/3", "(1+2i)", "550e8400-e29b-41d4-a716-446655440000"}
 
 var bytesBounds = [][]byte{nil, {}, {0}, {'a'}, {0xff, 0xfe}, []byte("hello"), []byte("\"quote\""), []byte(strings.Repeat("\xaa", 300)), []byte("中文")}
